@@ -61,6 +61,7 @@ def abi_args(kind, named):
 
 
 def initialize(I, kind, named):
+    I.new_epoch()       # a new set-up: whatever was written before belongs to an earlier simulation
     r = I.call_fn("engineexport_initialize_" + kind, abi_args(kind, named))
     return r
 
